@@ -154,6 +154,8 @@ def sworldWith (blk : String → Nat → Nat → Nat) (st : Strm) (keyMethod : S
   concat vs := match strs vs with
     | some ss => pure (.str (String.join ss))
     | Option.none => throw "TypeError"
+  dict _ := throw "TypeError"
+  whileLoop _ _ _ := throw "Unsupported"
   other _ := throw "Unsupported"
   throw cls := throw cls
   rethrow := throw "reraise"
